@@ -371,14 +371,21 @@ func (c *nodeComparer) Walk(from, to *value) {
 
 	case reflect.Slice:
 		results := make([][]diff.Result, from.Len())
+		known := make([][]bool, from.Len())
 		for i := range results {
 			results[i] = make([]diff.Result, to.Len())
+			known[i] = make([]bool, to.Len())
 		}
 
+		// Difference may ask about the same pair more than once (it searches
+		// from both ends). Compare every pair once only: otherwise the cost
+		// doubles with every level of nesting.
 		es := diff.Difference(from.Len(), to.Len(), func(i, j int) diff.Result {
-			result := compareNodes(from.Children[i], to.Children[j])
-			results[i][j] = result
-			return result
+			if !known[i][j] {
+				results[i][j] = compareNodes(from.Children[i], to.Children[j])
+				known[i][j] = true
+			}
+			return results[i][j]
 		})
 
 		var i, j int
